@@ -498,7 +498,9 @@ include hsub hsc hW
 theorem changeState_sim (t : Trans) (dst : Nat) (a b : St) (h : Sim cfg sc qm m0 a b) :
     RSim cfg sc qm m0 (Async.changeState subA sc kd cfg x t dst a) (TM.changeState subS sc cfg x t dst b) := by
   unfold Async.changeState TM.changeState
-  cases hs : cfg.state? t.source with
+  have hst : a.stateOf x.model = b.stateOf x.model := by simp [St.stateOf, h.mstate]
+  rw [hst]
+  cases hs : cfg.state? (b.stateOf x.model) with
   | none => exact ⟨rfl, h⟩
   | some src =>
     simp only []
